@@ -2,6 +2,7 @@
 from harness.rt import *  # noqa: F401,F403
 from harness.rt import mk_ob
 from lib.domain import SHAPES
+from harness import C18  # noqa: F401  (word-wrap obligations reuse C18's width-symbolic body)
 
 FUNCS = [
     "doctrans.emit.class_", "doctrans.emitter_utils.to_docstring", "doctrans.ast_utils.param2ast", "doctrans.ast_utils._generic_param2ast",
@@ -28,4 +29,12 @@ def obligations(tier, seed):
         obs.append(mk_ob("rt", "rt", "class", sid, {"emit_default_doc": False}, tier, funcs=FUNCS))
     for sid in (["p1_int_d", "p1_str_s", "p1_untyped_d"] if tier == "quick" else shapes):
         obs.append(mk_ob("text", "rt", "class", sid, {"emit_default_doc": True}, tier, extra=", text=True", kind="F", fixed={"p": "the a b"}, str_alpha="STR_T", funcs=FUNCS))
+    # word-wrap ON (the quantifier of C02 includes it): the class round trip on C18's pool of long texts with the width as solver variable
+    from lib.ob import Ob
+
+    for a, b in ((85, 105), (105, 125)) if tier == "quick" else ((40, 60), (60, 85), (85, 105), (105, 125), (125, 200)):
+        obs.append(Ob(name="wrap_class_ir1_w%d" % a, params=[("W", "int")], pre=["%d <= W < %d" % (a, b)],
+                      body="H.C18.wrap('class', 1, W, {ACTIVE})", witness=(a + 5,),
+                      bounds="emit.class_(word_wrap=True) -> parse.class_ vs the unwrapped round trip, C18 pool IR 1, every width %d <= W < %d (symbolic)"
+                      % (a, b), timeout=240 if tier == "quick" else 900, path_timeout=120, funcs=FUNCS))
     return obs
